@@ -2,6 +2,7 @@ package simrt
 
 import (
 	"sync"
+	"time"
 	"unsafe"
 )
 
@@ -167,4 +168,121 @@ func (m *Map) Len() int {
 	n := len(m.m)
 	qunlock(&m.mu)
 	return n
+}
+
+// RwMap is the deterministic replacement for goutil.RwMap: a Map behind a readers-writer lock with the locking
+// discipline of the original - Load, Len and Random under the read lock, Store, LoadOrStore, Delete and Clear under
+// the write lock, and Range holding the read lock while its callback runs.  That discipline is behaviour: a
+// callback that waits for a lock whose holder needs the write side of the map deadlocks in the original, and so
+// it must here.
+type RwMap struct {
+	Map
+	readers int
+	writer  bool
+	rtok    int // address for the readers' release-merge edge
+}
+
+// NewRwMap creates a RwMap; the optional capacity is ignored.
+//
+//go:norace
+func NewRwMap(capacity ...int) *RwMap { return &RwMap{Map: Map{m: map[any]any{}}} }
+
+// SimLabel describes the map in reports.
+//
+//go:norace
+func (m *RwMap) SimLabel() string { return "rwmap" }
+
+//go:norace
+func (m *RwMap) rlock() {
+	if Active() == nil {
+		return
+	}
+	Point(KRLock, m, func(time.Time) (bool, time.Time) { return !m.writer, time.Time{} })
+	m.readers++
+	RaceAcquire(unsafe.Pointer(&m.writer))
+}
+
+//go:norace
+func (m *RwMap) runlock() {
+	if Active() == nil {
+		return
+	}
+	RaceReleaseMerge(unsafe.Pointer(&m.rtok))
+	m.readers--
+}
+
+//go:norace
+func (m *RwMap) lock() {
+	if Active() == nil {
+		return
+	}
+	Point(KLock, m, func(time.Time) (bool, time.Time) { return !m.writer && m.readers == 0, time.Time{} })
+	m.writer = true
+	RaceAcquire(unsafe.Pointer(&m.writer))
+	RaceAcquire(unsafe.Pointer(&m.rtok))
+}
+
+//go:norace
+func (m *RwMap) unlock() {
+	if Active() == nil {
+		return
+	}
+	RaceRelease(unsafe.Pointer(&m.writer))
+	m.writer = false
+}
+
+//go:norace
+func (m *RwMap) Load(key any) (any, bool) {
+	m.rlock()
+	defer m.runlock()
+	return m.Map.Load(key)
+}
+
+//go:norace
+func (m *RwMap) Store(key, value any) {
+	m.lock()
+	defer m.unlock()
+	m.Map.Store(key, value)
+}
+
+//go:norace
+func (m *RwMap) LoadOrStore(key, value any) (any, bool) {
+	m.lock()
+	defer m.unlock()
+	return m.Map.LoadOrStore(key, value)
+}
+
+//go:norace
+func (m *RwMap) Range(f func(key, value any) bool) {
+	m.rlock()
+	defer m.runlock()
+	m.Map.Range(f)
+}
+
+//go:norace
+func (m *RwMap) Random() (any, any, bool) {
+	m.rlock()
+	defer m.runlock()
+	return m.Map.Random()
+}
+
+//go:norace
+func (m *RwMap) Delete(key any) {
+	m.lock()
+	defer m.unlock()
+	m.Map.Delete(key)
+}
+
+//go:norace
+func (m *RwMap) Clear() {
+	m.lock()
+	defer m.unlock()
+	m.Map.Clear()
+}
+
+//go:norace
+func (m *RwMap) Len() int {
+	m.rlock()
+	defer m.runlock()
+	return m.Map.Len()
 }
